@@ -1696,4 +1696,76 @@ theorem rewriteTop_headEq (e : Env) (ht : TextOK e) (dg : Bool) (fuel : Nat) (rt
   exact (endElim_headEq' e ht true fuel fuel rtl false true _).trans
     (NEq.headEq (reduceAll_sound e ht true dg fuel n rtl false))
 
+/-! ## the bump-along marker -/
+
+theorem catEq_bump (e : Env) (rtl : Bool) : CatEq e rtl [.bump] [] := by
+  intro st; rw [mc_single, mc_nil]; simp [toPat, m]
+
+/-- the marker is `Empty` for the specification: placing it changes no success -/
+theorem placeBump_sound (e : Env) (rtl : Bool) : ∀ (n : RNode) (ia ab : Bool) (st : St),
+    m e (toPat rtl (placeBump ia ab n)) rtl st = m e (toPat rtl n) rtl st
+  | .atomic b, ia, ab, st => by
+    rw [placeBump]
+    simp only [toPat]
+    exact atomic_congr_dir (fun st => placeBump_sound e rtl b true ab st) st
+  | .cat o [], ia, ab, st => by simp only [placeBump]
+  | .cat o (c :: cs), ia, ab, st => by
+    rw [placeBump]
+    split
+    · rw [m_cat, m_cat]
+      exact CatEq.cons c (CatEq.append (a := [.bump]) (a' := []) (catEq_bump e rtl) (CatEq.refl e rtl cs)) st
+    · rw [m_cat, m_cat]
+      exact CatEq.append (a := [_]) (a' := [c]) (CatEq.of_m (fun st => placeBump_sound e rtl c ia false st)) (CatEq.refl e rtl cs) st
+  | .chr .., _, _, _ | .cloop .., _, _, _ | .multi .., _, _, _ | .empty, _, _, _ | .nothing, _, _, _ | .bump, _, _, _
+  | .anchor .., _, _, _ | .ref .., _, _, _ | .alt .., _, _, _ | .loop .., _, _, _ | .cap .., _, _, _ | .look .., _, _, _
+  | .refCond .., _, _, _ | .exprCond .., _, _, _ => by simp only [placeBump]
+
+/-- the loop in front position, as a pattern -/
+def bumpLoopPat (k : LK) (p : CP) (lo : Nat) : Pat := .quant (k == .lzy) lo none (.chr p.pred)
+
+theorem front_seqOf_cons {L : Pat} {a : Bool} {F : Pat} (h : Front L a F) : ∀ (l : List Pat), Front L a (seqOf (F :: l))
+  | [] => h
+  | _ :: _ => Front.seq _ h
+
+/-- **where the marker goes the pattern begins with the loop** (`Front`: first factor of nested
+    concatenations, inside Atomic groups only for a greedy / atomic loop) -/
+theorem bumpSite_front : ∀ (n : RNode) (ia ab : Bool) (k : LK) (p : CP) (lo : Nat),
+    bumpSite ia ab n = some (k, p, lo) →
+      Front (bumpLoopPat k p lo) (k != .lzy) (toPat false n) ∧ (k = .lzy → ia = false)
+  | .atomic b, ia, ab, k, p, lo, h => by
+    simp only [bumpSite] at h
+    obtain ⟨h1, h2⟩ := bumpSite_front b true ab k p lo h
+    have hk : k ≠ .lzy := fun hk => by have := h2 hk; cases this
+    refine ⟨?_, fun hk' => absurd hk' hk⟩
+    simp only [toPat]
+    exact Front.atomic (by simpa using hk) h1
+  | .cat o [], ia, ab, k, p, lo, h => by simp [bumpSite] at h
+  | .cat o (c :: cs), ia, ab, k, p, lo, h => by
+    simp only [bumpSite] at h
+    by_cases hb : bumpLoop ia false c = true
+    · simp only [hb, if_true] at h
+      cases c
+      case cloop o' k' p' lo' hi' =>
+        simp only [Option.some.injEq, Prod.mk.injEq] at h
+        obtain ⟨rfl, rfl, rfl⟩ := h
+        cases hi' with
+        | some _ => simp [bumpLoop] at hb
+        | none =>
+          simp only [bumpLoop, Bool.not_false, Bool.true_and, Bool.or_eq_true, bne_iff_ne, ne_eq, Bool.not_eq_true'] at hb
+          simp only [toPat, toPats, dir, Bool.false_eq_true, if_false]
+          refine ⟨front_seqOf_cons ?_ _, fun hk => by subst hk; simpa using hb⟩
+          cases k'
+          · exact Front.here
+          · exact Front.here
+          · exact Front.atomic rfl Front.here
+      all_goals simp at h
+    · simp only [hb, Bool.false_eq_true, if_false] at h
+      obtain ⟨h1, h2⟩ := bumpSite_front c ia false k p lo h
+      simp only [toPat, toPats, dir, Bool.false_eq_true, if_false]
+      exact ⟨front_seqOf_cons h1 _, h2⟩
+  | .chr .., _, _, _, _, _, h | .cloop .., _, _, _, _, _, h | .multi .., _, _, _, _, _, h | .empty, _, _, _, _, _, h
+  | .nothing, _, _, _, _, _, h | .bump, _, _, _, _, _, h | .anchor .., _, _, _, _, _, h | .ref .., _, _, _, _, _, h
+  | .alt .., _, _, _, _, _, h | .loop .., _, _, _, _, _, h | .cap .., _, _, _, _, _, h | .look .., _, _, _, _, _, h
+  | .refCond .., _, _, _, _, _, h | .exprCond .., _, _, _, _, _, h => by simp [bumpSite] at h
+
 end RegexVerif.RewriteDecisions
